@@ -312,6 +312,94 @@ fn parser_layer(ctx: &Ctx, ln: u32, tier: Tier) {
     }
 }
 
+/// The namespace-resolving reader over the three source kinds: resolved events, the in-scope prefix
+/// listing and both positions after every call must not depend on the source or the chunking.
+fn ns_layer(ctx: &Ctx, ln: u32, tier: Tier) {
+    use quick_xml::name::ResolveResult;
+    use quick_xml::reader::NsReader;
+    const ATOMS: &[&[u8]] = &[b"<a", b"<p:b", b" xmlns=\"u\"", b" xmlns:p=\"v\"", b" xmlns:p=\"\"", b" p:x=\"1\"", b">", b"/>", b"</a>", b"</p:b>", b"t"];
+    let max = tier.pick(5, 6);
+    let sp = atoms("N.ns_reader", ATOMS, max);
+    type Row = (String, String, Vec<(Vec<u8>, Vec<u8>)>, u64, u64);
+    fn own(res: &quick_xml::Result<(ResolveResult, quick_xml::events::Event)>) -> (Ev, String) {
+        match res {
+            Ok((rr, e)) => (Ev::from_event(e), format!("{:?}", rr)),
+            Err(e) => (Ev::Err(E::from_error(e)), String::new()),
+        }
+    }
+    fn row<R>(r: &NsReader<R>, owned: (Ev, String)) -> (Row, bool) {
+        let (ev, rr) = owned;
+        let stop = ev == Ev::Eof;
+        let prefixes = r.prefixes().map(|(p, n)| (format!("{:?}", p).into_bytes(), n.0.to_vec())).collect();
+        ((ev.show(), rr, prefixes, r.buffer_position(), r.error_position()), stop)
+    }
+    ctx.layer("N.ns_reader", ln, sp.total, json!({"atoms": ATOMS.iter().map(|a| lossy(a)).collect::<Vec<_>>(), "max_len": max, "sources": ["buffered 1", "buffered 2", "buffered whole", "async 1"]}), |i, acc| {
+        let mut input = Vec::new();
+        sp.get(i, &mut input);
+        let cap = 2 * input.len() + 8;
+        let reference: Result<Vec<Row>, String> = guarded_mut(|| {
+            let mut r = NsReader::from_reader(&input[..]);
+            r.config_mut().allow_unmatched_ends = true;
+            r.config_mut().check_end_names = false;
+            let mut t = Vec::new();
+            for _ in 0..cap {
+                let owned = own(&r.read_resolved_event());
+                let (rw, stop) = row(&r, owned);
+                t.push(rw);
+                if stop {
+                    break;
+                }
+            }
+            t
+        });
+        let Ok(reference) = reference else { return }; // totality is C03's business
+        for (name, script, is_async) in [("buffered 1", Script::pieces(1), false), ("buffered 2", Script::pieces(2), false), ("buffered whole", Script::whole(), false), ("async 1", Script::pieces(1), true)] {
+            let got: Result<Vec<Row>, String> = guarded_mut(|| {
+                let mut r = NsReader::from_reader(Source::new(&input, &script));
+                r.config_mut().allow_unmatched_ends = true;
+                r.config_mut().check_end_names = false;
+                let mut buf = Vec::new();
+                let mut t = Vec::new();
+                for _ in 0..cap {
+                    buf.clear();
+                    let owned = if is_async {
+                        match block_on(r.read_resolved_event_into_async(&mut buf), input.len() + 16) {
+                            Some(x) => own(&x),
+                            None => break,
+                        }
+                    } else {
+                        own(&r.read_resolved_event_into(&mut buf))
+                    };
+                    let (rw, stop) = row(&r, owned);
+                    t.push(rw);
+                    if stop {
+                        break;
+                    }
+                }
+                t
+            });
+            acc.evaluations += 1;
+            acc.traces += 1;
+            acc.transitions += reference.len() as u64;
+            match got {
+                Ok(t) if t == reference => {
+                    if t.len() > 2 {
+                        acc.nt_count += 1;
+                    }
+                }
+                other => {
+                    let k = other.as_ref().ok().and_then(|t| (0..t.len().max(reference.len())).find(|&k| t.get(k) != reference.get(k)));
+                    acc.violation(
+                        (ln, i),
+                        format!("NsReader over {:?}, {}: call #{:?} gives {:?}, over the slice {:?}", lossy(&input), name, k, k.and_then(|k| other.as_ref().ok().and_then(|t| t.get(k).cloned())), k.and_then(|k| reference.get(k).cloned())),
+                        json!({"input": bytes_json(&input), "kind": "stream", "source": name}),
+                    )
+                }
+            }
+        }
+    });
+}
+
 /// Raw reads through `Reader::stream()` between events: the bytes read and every position reported
 /// afterwards must not depend on the source kind or the chunking.
 fn stream_layer(ctx: &Ctx, ln: u32, tier: Tier) {
@@ -423,7 +511,7 @@ pub fn run(ctx: &Ctx) {
     ctx.set_rule(
         "inputs: layer A (all strings over the markup alphabet), C (atom sequences), D (construct contexts, with BOM \
          variants), E (sample documents). schedules: every way to cut short inputs into consecutive non-empty pieces, \
-         every <=k-cut set for longer ones, uniform piece sizes; also raw reads through Reader::stream() between events (read_exact, fill_buf+consume, async read_exact); sources: buffered (read_event_into over a scripted BufRead) \
+         every <=k-cut set for longer ones, uniform piece sizes; also NsReader (resolved events + prefix listing) over an 11-atom namespace alphabet, and raw reads through Reader::stream() between events (read_exact, fill_buf+consume, async read_exact); sources: buffered (read_event_into over a scripted BufRead) \
          and async (read_event_into_async over a scripted AsyncBufRead polled by hand), the latter also with every \
          placement of up to k Poll::Pending answers. Oracle: the trace of the borrowing reader (events, errors, \
          buffer_position and error_position after every call, two extra calls after Eof), under four configurations (neutral, default, all switches on, neutral + text trimming). non-trivial = some cut falls strictly inside a markup construct (spans from the \
@@ -455,6 +543,8 @@ pub fn run(ctx: &Ctx) {
     parser_layer(ctx, ln, t);
     ln += 1;
     stream_layer(ctx, ln, t);
+    ln += 1;
+    ns_layer(ctx, ln, t);
     ln += 1;
 
     // E: corpus with uniform piece sizes and every single cut in a window around each markup start
